@@ -22,6 +22,13 @@ def main():
             if r.returncode != 0:
                 print('PATCH FAILED'); return 2
         env = dict(os.environ, VERIF_REPO=repo, VERIF_DIR=vd)
+        if any(i in ('C03', 'C08', 'C09', 'C18', 'C19') for i in ids):
+            shutil.copy('/repo/Cargo.lock', repo)
+            r = subprocess.run([os.path.join(VERIF, 'bin/mirfacts'), repo], capture_output=True, text=True, env=env)
+            if r.returncode != 0:
+                print('  MIR facts could not be produced for the patched tree (does it compile?):', r.stderr[-300:])
+            else:
+                env['MIRFACTS_DIR'] = r.stdout.strip()
         exe = os.path.join(VERIF, 'tools/rpverif/target/release/rpverif')
         caught = []
         for i in ids:
